@@ -38,7 +38,9 @@ From Coq Require Import List ZArith Bool Lia Permutation Sorted.
 From SVC Require Import Base.AMap Base.Res Base.Dec Model.Types Model.Pricing
   Model.Handlers Model.EndBlock Model.Step Proofs.Inv Proofs.Lemmas Proofs.InvWf
   Proofs.DecProofs Proofs.BankLemmas Proofs.ReqLemmas Proofs.PFrame Proofs.InvBank
-  Proofs.InvEarn Proofs.InvEscrow Proofs.StepSpecs_earn Proofs.InvAll.
+  Proofs.InvEarn Proofs.InvEscrow Proofs.StepSpecs_earn Proofs.InvAll Proofs.ReachRun
+  Proofs.K1Enable.
+From SVC Require Proofs.QueryProofs.
 Import ListNotations.
 Open Scope Z_scope.
 Open Scope res_scope.
@@ -672,3 +674,120 @@ Proof.
   - destruct (loop_inv_step cfg s a (l1 ++ l2) (wf_cfg_slash _ Hcfg) Hn HL) as (_ & HL').
     apply IH; [exact HL'|now inversion Hn].
 Qed.
+
+(* ------------------------------------------------------------------ *)
+(* Known finding K1: without the exclusion the message theorem is false.
+   Configuration k1_cfg (Proofs/K1Enable.v): MinDepositMultiple = 1000.  The price 2^250
+   (raw text 2^250 * 10^18 at token scale 0) passes the pricing schema and fits an sdk.Int;
+   2^250 * 1000 does not. *)
+
+Definition k1_huge : RawPricing := mkRaw (2 ^ 250 * ONE) [] [].
+
+Definition k1b_s : State := run k1_cfg (init 1 0 [(42, 100000)]) [ODefine 1 5 true].
+Definition k1b_op : Op := OBind 1 7 (CBase 5000) (Some k1_huge) 10 42 true.
+
+Lemma k1b_reachK1 : ReachK1 k1_cfg k1b_s.
+Proof.
+  apply (ReachK1_step k1_cfg (init 1 0 [(42, 100000)]) (ODefine 1 5 true)); [|exact I|exact I].
+  apply ReachK1_init; [lia|lia|wf_funding_tac].
+Qed.
+
+Example k1_huge_passes_schema :
+  validate_pricing (parse_pricing k1_huge) = true /\ schema_pricing (parse_pricing k1_huge) = true
+  /\ pr_price (parse_pricing k1_huge) < INT_LIMIT
+  /\ ~ k1_bound k1_cfg (parse_pricing k1_huge).
+Proof. vm_compute. repeat split; intros H; discriminate H. Qed.
+
+(* MsgBindService *)
+Theorem C20_K1_bind_refuted :
+  exists cfg s o, wf_cfg cfg /\ Reach cfg s /\ wf_op s o /\ handle cfg s o = Panic.
+Proof.
+  exists k1_cfg, k1b_s, k1b_op.
+  split; [exact k1_cfg_wf|]. split; [exact (ReachK1_Reach _ _ k1b_reachK1)|]. split; [exact I|].
+  vm_compute. reflexivity.
+Qed.
+
+(* the same witness, sharper: the history before the message satisfies X-K1 (ReachK1), the
+   message passes every check of the handler that precedes getMinDeposit, and violates
+   exactly the exclusion *)
+Theorem C20_K1_bind_witness :
+  wf_cfg k1_cfg /\ ReachK1 k1_cfg k1b_s /\ wf_op k1b_s k1b_op
+  /\ ~ k1_op k1_cfg k1b_s k1b_op /\ snd (step k1_cfg k1b_s k1b_op) = RPanic.
+Proof.
+  split; [exact k1_cfg_wf|]. split; [exact k1b_reachK1|]. split; [exact I|].
+  split; [|vm_compute; reflexivity]. vm_compute. intros H; discriminate H.
+Qed.
+
+(* MsgUpdateServiceBinding on an available binding *)
+Definition k1u_s : State :=
+  run k1_cfg (init 1 0 [(42, 100000)])
+    [ODefine 1 5 true; OBind 1 7 (CBase 5000) (Some (mkRaw (2 * ONE) [] [])) 10 42 true].
+Definition k1u_op : Op := OUpdate 1 7 CEmpty (Some (Some k1_huge)) 0 42 true.
+
+Theorem C20_K1_update_refuted :
+  exists cfg s o, wf_cfg cfg /\ Reach cfg s /\ wf_op s o /\ handle cfg s o = Panic.
+Proof.
+  exists k1_cfg, k1u_s, k1u_op.
+  split; [exact k1_cfg_wf|]. split; [|split; [exact I|vm_compute; reflexivity]].
+  apply reach_init_run; [lia|lia|wf_funding_tac|]. wf_run_tac.
+Qed.
+
+(* MsgEnableServiceBinding: the message carries no price at all.  The history (k1_ops) is
+   accepted message by message (K1Enable.k1_all_ok): the Update of the DISABLED binding stores
+   the price without calling getMinDeposit, and the overflow surfaces in Enable.  This is
+   why k1_op bounds the stored price for Enable, and why the input-only form k1_in has to
+   hold along the whole history. *)
+Theorem C20_K1_enable_refuted :
+  exists cfg s o, wf_cfg cfg /\ Reach cfg s /\ wf_op s o /\ handle cfg s o = Panic.
+Proof.
+  exists k1_cfg, k1_s, (OEnable 1 7 CEmpty 42 true).
+  split; [exact k1_cfg_wf|]. split; [exact k1_reach|]. split; [exact I|]. vm_compute. reflexivity.
+Qed.
+
+Theorem C20_K1_enable_witness :
+  Reach k1_cfg k1_s /\ ~ I_k1 k1_cfg k1_s
+  /\ ~ k1_op k1_cfg k1_s (OEnable 1 7 CEmpty 42 true)
+  /\ k1_in k1_cfg (OEnable 1 7 CEmpty 42 true)
+  /\ snd (step k1_cfg k1_s (OEnable 1 7 CEmpty 42 true)) = RPanic.
+Proof.
+  split; [exact k1_reach|]. split; [|split; [|split; [exact I|vm_compute; reflexivity]]].
+  - intros H. specialize (H (1, 7) (parse_pricing k1_huge)).
+    assert (G : get (1, 7) (pricing k1_s) = Some (parse_pricing k1_huge)) by (vm_compute; reflexivity).
+    apply H in G. revert G. vm_compute. intros G; discriminate G.
+  - vm_compute. intros H; discriminate H.
+Qed.
+
+(* EndBlock needs no exclusion: even in k1_s (which violates I_k1) the theorems
+   C20_expire_loop_clean / C20_no_panic_endblock apply, because they assume Inv only *)
+Example C20_K1_endblock_unaffected c n :
+  expire_loop_clean k1_cfg (active_rids k1_s c n) k1_s.
+Proof. apply C20_expire_loop_clean; [exact k1_cfg_wf|]. apply Reach_Inv; [exact k1_cfg_wf|exact k1_reach]. Qed.
+
+(* ------------------------------------------------------------------ *)
+(* Determinism, the part that Gallina can express.
+
+   The state machine is a function: [step] and [run] are Gallina functions, so equal inputs
+   give equal outputs.  EndBlock walks the two queues in the order of the store keys: [due]
+   returns exactly the contexts queued for the height, in ascending CtxId order, whatever the
+   order of the queue list.  Byte-level determinism across OS processes (the Go map
+   providerRequests of abci.go is ranged over only to group events; scheduler, iteration
+   order) is a fact about the Go runtime that no Gallina function can exhibit: it is checked
+   by the harness's double-replay mode (every history run in two fresh app instances,
+   digests of the module store and the balances compared after each step). *)
+
+Theorem C20_step_deterministic cfg s o r1 r2 :
+  step cfg s o = r1 -> step cfg s o = r2 -> r1 = r2.
+Proof. congruence. Qed.
+
+Theorem C20_run_deterministic cfg s ops s1 s2 :
+  run cfg s ops = s1 -> run cfg s ops = s2 -> s1 = s2.
+Proof. congruence. Qed.
+
+Theorem C20_due_sorted_perm (q : list (Z * CtxId)) h :
+  Permutation (due q h) (map snd (filter (fun e => fst e =? h) q)).
+Proof. unfold due. apply isort_perm. Qed.
+
+Theorem C20_due_sorted (q : list (Z * CtxId)) h :
+  Sorted (fun a b => ctxid_leb a b = true) (due q h).
+Proof. unfold due. exact (QueryProofs.isort_sorted ctxid_leb QueryProofs.ctxid_leb_total _). Qed.
+
